@@ -159,12 +159,28 @@ fn json_fields(v: serde_json::Value) -> Vec<(String, Val)> {
 }
 
 fn daemon_fields(c: &teos::config::Config) -> Vec<(String, Val)> {
-    let mut f = json_fields(serde_json::json!(c));
-    // the two one-shot switches are read straight from the struct (a field serde skips would not be
-    // in the JSON view)
-    for (k, b) in [("overwrite_key", c.overwrite_key), ("force_update", c.force_update)] {
-        f.retain(|(n, _)| n != k);
-        f.push((k.to_owned(), Val::B(b)));
+    // every known field is read straight from the struct (a field serde skips would be missing from a
+    // serialised view); fields this list does not know yet are taken from the JSON view
+    macro_rules! fields {
+        ($($name:ident : $kind:ident),* $(,)?) => {
+            vec![$((stringify!($name).to_owned(), fields!(@v $kind c.$name))),*]
+        };
+        (@v S $e:expr) => { Val::S($e.clone()) };
+        (@v N $e:expr) => { Val::N($e as u64) };
+        (@v B $e:expr) => { Val::B($e) };
+    }
+    let mut f: Vec<(String, Val)> = fields!(
+        api_bind: S, api_port: N, rpc_bind: S, rpc_port: N,
+        btc_network: S, btc_rpc_user: S, btc_rpc_cookie: S, btc_rpc_password: S, btc_rpc_connect: S, btc_rpc_port: N,
+        debug: B, deps_debug: B, overwrite_key: B, force_update: B,
+        subscription_slots: N, subscription_duration: N, expiry_delta: N, min_to_self_delay: N, polling_delta: N,
+        internal_api_bind: S, internal_api_port: N,
+        tor_support: B, tor_control_port: N, onion_hidden_service_port: N,
+    );
+    for (k, v) in json_fields(serde_json::json!(c)) {
+        if !f.iter().any(|(n, _)| *n == k) {
+            f.push((k, v));
+        }
     }
     f.sort_by(|a, b| a.0.cmp(&b.0));
     f
